@@ -402,10 +402,16 @@ func gen(t *rapid.T) Case {
 	}
 	// shared parameters and responses
 	sharedParams := M{}
+	limitKey := "limitParam"
 	if g.chance(2, "sharedparam") {
 		p := g.paramSchemaFields(true)
 		p["name"], p["in"] = "limit", "query"
-		sharedParams["limitParam"] = p
+		// the key spaces of parameters, responses and definitions are separate in v2: the same key may
+		// name one of each
+		if len(g.defs) > 0 && g.chance(3, "keycollision") {
+			limitKey = g.defs[0]
+		}
+		sharedParams[limitKey] = p
 	}
 	// a shared formData parameter comes back from FromV3 as a definition (known open finding):
 	// excluded by construction unless C17_SHAREDFORM=1
@@ -424,6 +430,7 @@ func gen(t *rapid.T) Case {
 		doc["parameters"] = sharedParams
 	}
 	sharedResp := M{}
+	errKey := "Err"
 	if g.chance(2, "sharedresp") {
 		r := M{"description": "shared"}
 		if g.chance(2, "srschema") {
@@ -432,7 +439,10 @@ func gen(t *rapid.T) Case {
 		if g.chance(2, "srheaders") {
 			r["headers"] = M{"X-Rate": g.prim()}
 		}
-		sharedResp["Err"] = r
+		if len(g.defs) > 0 && g.chance(3, "respkeycollision") {
+			errKey = g.defs[len(g.defs)-1]
+		}
+		sharedResp[errKey] = r
 	}
 	if len(sharedResp) > 0 {
 		doc["responses"] = sharedResp
@@ -498,8 +508,8 @@ func gen(t *rapid.T) Case {
 				}
 				params = append(params, p)
 			}
-			if _, ok := sharedParams["limitParam"]; ok && g.chance(2, "uselimit") {
-				params = append(params, M{"$ref": "#/parameters/limitParam"})
+			if _, ok := sharedParams[limitKey]; ok && g.chance(2, "uselimit") {
+				params = append(params, M{"$ref": "#/parameters/" + limitKey})
 				g.feats["shared-ref"] = true
 			}
 			if meth != "get" {
@@ -544,8 +554,8 @@ func gen(t *rapid.T) Case {
 			}
 			rs := M{}
 			for _, code := range []string{"200", "404", "default"}[:rapid.IntRange(1, 3).Draw(t, "nresp")] {
-				if _, ok := sharedResp["Err"]; ok && code != "200" && g.chance(2, "useerr") {
-					rs[code] = M{"$ref": "#/responses/Err"}
+				if _, ok := sharedResp[errKey]; ok && code != "200" && g.chance(2, "useerr") {
+					rs[code] = M{"$ref": "#/responses/" + errKey}
 					g.feats["shared-ref"] = true
 					continue
 				}
